@@ -72,6 +72,7 @@ class Fn:
         self.tmp = 0
         self.raises = 0
         self.calls = set()
+        self.qual = ''          # prefix of module-level names when the text is emitted into another file
 
     # ---- monad vocabulary ----
     def ret(self, pure):
@@ -132,7 +133,7 @@ class Fn:
                 return 'pure', cq(e.id)
             if e.id in tr.consts:
                 self.calls.add(e.id)
-                return 'pure', cq(e.id)
+                return 'pure', self.qual + cq(e.id)
             raise Unsupported(e, 'unknown name')
         if isinstance(e, ast.Tuple):
             return 'comp', self.atoms(e.elts, lambda ps: self.ret('(VTuple [%s])' % '; '.join(ps)))
@@ -223,7 +224,7 @@ class Fn:
                 if len(e.args) != tr.funcs[n]:
                     raise Unsupported(e, 'arity')
                 self.calls.add(n)
-                return self.prim(cq(n), e.args)
+                return self.prim(self.qual + cq(n), e.args)
             raise Unsupported(e, 'call of an unknown function')
         if isinstance(f, ast.Attribute):
             # struct.pack / struct.unpack
@@ -356,16 +357,12 @@ class Fn:
             c = self.fresh()
             b = self.fresh()
             cond = self.bind(t if k == 'comp' else self.ret(t), c, self.lift('(py_truth %s)' % c))
-            if self.terminates(s.body) and (not s.orelse or self.terminates(s.orelse)):
+            if self.terminates(s.body):
+                # control continues after the `if` only through the else-branch (elif chains included)
                 saved = set(self.locals)
                 then = self.block(s.body)
                 self.locals = set(saved)
-                if s.orelse:
-                    if rest:
-                        raise Unsupported(s, 'code after an if whose both branches leave')
-                    els = self.block(s.orelse)
-                else:
-                    els = self.block(rest, fallthrough)
+                els = self.block(list(s.orelse) + rest, fallthrough)
                 return self.bind(cond, b, '(if %s then %s else %s)' % (b, then, els))
             if not s.orelse:
                 # fall-through body that only re-assigns names: make the join explicit
